@@ -2,8 +2,10 @@
 package c20
 
 import (
+	"bytes"
 	"encoding/base64"
 	"fmt"
+	"mime/multipart"
 	"net/http"
 	"net/http/httptest"
 	"net/url"
@@ -77,6 +79,12 @@ func propAuth(t *rapid.T) {
 		return func(c *rux.Context) { trace = append(trace, "enter "+n); c.Next(); trace = append(trace, "leave "+n) }
 	}
 	auth := handlers.HTTPBasicAuth(accounts)
+	// something earlier in the chain may already have started the response (a banner, a streaming prelude):
+	// the gate is about what RUNS afterwards, it must hold all the same
+	banner := rapid.IntRange(0, 3).Draw(t, "bannerBeforeAuth") == 0
+	if banner {
+		r.Use(rux.WrapHTTPHandlerFunc(func(w http.ResponseWriter, _ *http.Request) { _, _ = w.Write([]byte("[banner]")) }))
+	}
 	var seenUser, seenPwd any
 	main := func(c *rux.Context) {
 		trace = append(trace, "main")
@@ -108,6 +116,14 @@ func propAuth(t *rapid.T) {
 	ev.Class("auth:" + kind)
 	if allow != ran || allow != afterRan {
 		t.Fatalf("downstream ran=%v (middleware after auth ran=%v), should run=%v: %s", ran, afterRan, allow, ctx)
+	}
+	if banner {
+		ev.Class("auth:response-already-started")
+		// the status was committed by the banner (200); only the gate itself can be asserted
+		if strings.Contains(rec.Body.String(), "secret") != allow {
+			t.Fatalf("protected content in the body = %v, should be %v: %s", !allow, allow, ctx)
+		}
+		return
 	}
 	switch {
 	case allow:
@@ -146,11 +162,11 @@ func propOverride(t *rapid.T) {
 	method := rapid.SampledFrom(rux.AnyMethods()).Draw(t, "method")
 	val := rapid.SampledFrom([]string{"PUT", "PATCH", "DELETE", "put", "Patch", "delete", "GET", "HEAD", "POST", "OPTIONS", "garbage", "", "PUT ", "PUTS", "DEL"})
 	headerVal, formVal := "", ""
-	carrier := rapid.SampledFrom([]string{"header", "form", "both", "none", "query"}).Draw(t, "carrier")
+	carrier := rapid.SampledFrom([]string{"header", "form", "both", "none", "query", "multipart"}).Draw(t, "carrier")
 	switch carrier {
 	case "header":
 		headerVal = val.Draw(t, "headerValue")
-	case "form", "query":
+	case "form", "query", "multipart":
 		formVal = val.Draw(t, "formValue")
 	case "both":
 		headerVal, formVal = val.Draw(t, "headerValue"), val.Draw(t, "formValue")
@@ -177,6 +193,16 @@ func propOverride(t *rapid.T) {
 	req := httptest.NewRequest(method, target, body)
 	if carrier == "form" || carrier == "both" {
 		req.Header.Set("Content-Type", "application/x-www-form-urlencoded")
+	}
+	if carrier == "multipart" { // the usual encoding of an edit form with a file input
+		var buf bytes.Buffer
+		mw := multipart.NewWriter(&buf)
+		_ = mw.SetBoundary("verifharnessboundary0123456789")
+		_ = mw.WriteField("title", "x")
+		_ = mw.WriteField(handlers.HTTPMethodOverrideFormKey, formVal)
+		_ = mw.Close()
+		req = httptest.NewRequest(method, target, &buf)
+		req.Header.Set("Content-Type", mw.FormDataContentType())
 	}
 	if headerVal != "" {
 		req.Header.Set(handlers.HTTPMethodOverrideHeader, headerVal)
